@@ -48,6 +48,14 @@ NEEDS = {
  "agent4-H6": ("C01", "IPP create folds wide rounds (half >= 128) in projective form with one closure for G and H (H needs the weights swapped)", "inner-product length >= 512, i.e. >= 257 gates"),
  "agent4-H7": ("C02", "multiply() with two structurally identical compound inputs replaces the second copy row by r - r = 0 on both roles", "multiply(e, e) with e of >= 2 terms and a cheating assignment on that gate's right wire"),
  "agent4-H8": ("C11", "from_bytes decodes unvalidated and checks subgroup membership of the SUM of all proof points once", "curve25519 only: two points shifted by +T and -T (cancelling small-order components)"),
+ "agent5-K1": ("C06", "batch_verify adds a challenge squeezed from each member's LIVE transcript to its weight", "a proof checked through batch_verify and the verifier's transcript used again afterwards (follow-up challenge / chained proof)"),
+ "agent5-K2": ("C07", "batch_verify's shared block starts with G::generator() instead of pc_gens.B", "a caller-chosen value base B != generator and verification through batch_verify"),
+ "agent5-K3": ("C01", "A_O2 committed on G[0..n2) instead of G[n1..n)", "gates in both phases and a non-zero second-phase output"),
+ "agent5-K4": ("C01", "T_i committed with G::generator() as value base instead of pc_gens.B (batched commit helper)", "custom value base on both sides and >= 1 gate"),
+ "agent5-K5": ("C07", "batch_verify does not accumulate the G/H coefficients of a member without gates", "gate-free batch member whose final scalar b was altered"),
+ "agent5-K6": ("C15", "add/sub fast paths treat a combination whose FIRST term is the constant 0 as zero and drop its other terms", "operand of + / - that starts with a zero constant term and has further non-zero terms"),
+ "agent5-K7": ("C06", "verifier squeezes r from the live transcript instead of a clone", "any use of the verifier's transcript after verification (follow-up challenge, chained proof)"),
+ "agent5-K8": ("C01", "prover computes Q = w * G::generator() instead of w * pc_gens.B", "custom value base on both sides and >= 2 gates"),
 }
 for d in sorted(glob.glob('/verif/seeded/*/')):
     name=os.path.basename(d.rstrip('/'))
